@@ -3,6 +3,17 @@ import Tbx.Model.Gabow
 import Tbx.Model.CycleCheck
 import Tbx.Model.Kruskal
 import Tbx.Spec.Components
+import Tbx.Proofs.C16UF
+import Tbx.Proofs.C16Kruskal
+import Tbx.Proofs.C16Tarjan
+import Tbx.Proofs.C16Gabow
+import Tbx.Proofs.C16Cycle
+import Tbx.Proofs.C16TarjanTotal
+import Tbx.Proofs.C16GabowTotal
+import Tbx.Proofs.C16KruskalMin
+import Tbx.Proofs.C16GabowExact
+import Tbx.Proofs.C16TarjanExact
+import Tbx.Proofs.C16Csr
 /-
 C16 — component, cycle and spanning-tree analyses agree with their definitions.
 Property theorems only (helper lemmas live in Tbx/Proofs/C16*.lean).
@@ -108,23 +119,198 @@ example : reachSet [(0, 1), (1, 2), (3, 0)] 0 = some [2, 1, 0] := by decide
 example : hasCycleB [(0, 1), (1, 2), (2, 1)] = some true := by decide
 example : hasCycleB [(0, 1), (1, 2), (0, 2)] = some false := by decide
 
-/-! ## P2: stated, not proved (decided by exhaustive small-scope correspondence only) -/
+/-! ## P1: union-find refines the equivalence closure of the union pairs -/
 
-def tarjan_exact_statement : Prop :=
-  ∀ (s : Tarjan.State) (g : Graph), WF g → numNodes g < maxU →
+open Tbx.UF in
+/-- For every state reachable from `UnionFind::new(n)` by `find`/`union` on elements `< n`, with `ps` the
+    union pairs so far: the parent forest is acyclic (every element reaches exactly one root), two elements
+    have the same root iff they are related by the equivalence closure of `ps`, `number_of_sets` is the
+    number of roots, and every class contains exactly one root (so it is the number of classes). -/
+theorem uf_refines {n : Nat} {u : UF.UF} {ps : Edges} (h : Reachable n u ps) :
+    u.parent.size = n ∧
+    (∀ i, i < n → ∃ r, RootOf u.parent i r ∧ r < n ∧ ∀ r', RootOf u.parent i r' → r' = r) ∧
+    (∀ i j, i < n → j < n → (Cls u.parent i j ↔ EqvClosure ps i j)) ∧
+    u.numSets = countRoots u.parent ∧
+    (∀ i, i < n → ∃ r, r < n ∧ gt u.parent r = r ∧ EqvClosure ps i r ∧
+      ∀ r', r' < n → gt u.parent r' = r' → EqvClosure ps i r' → r' = r) := by
+  obtain ⟨hinv, hsz, hcls⟩ := reachable_refines h
+  have hroot : ∀ i, i < n → ∃ r, RootOf u.parent i r ∧ r < n := by
+    intro i hi
+    obtain ⟨r, hr⟩ := hinv.exists_root i (by omega)
+    exact ⟨r, hr, by have := hr.is_root.1; omega⟩
+  refine ⟨hsz, ?_, ?_, hinv.nsets, ?_⟩
+  · intro i hi
+    obtain ⟨r, hr, hrn⟩ := hroot i hi
+    exact ⟨r, hr, hrn, fun r' hr' => hr'.functional hr⟩
+  · intro i j hi hj
+    rw [hcls i j hi hj, conn_iff_eqvClosure]
+  · intro i hi
+    obtain ⟨r, hr, hrn⟩ := hroot i hi
+    have hrr : RootOf u.parent r r := .root hr.is_root.1 hr.is_root.2
+    refine ⟨r, hrn, hr.is_root.2, ?_, ?_⟩
+    · rw [← conn_iff_eqvClosure, ← hcls i r hi hrn]; exact ⟨r, hr, hrr⟩
+    · intro r' hr'n hr'root hc
+      rw [← conn_iff_eqvClosure, ← hcls i r' hi hr'n] at hc
+      obtain ⟨q, h1, h2⟩ := hc
+      have e1 := h1.functional hr
+      have e2 := h2.of_root hr'root
+      omega
+
+open Tbx.UF in
+/-- `find` terminates without panic, returns the root of its argument's class (a member of the class),
+    and path halving changes no element's root -/
+theorem uf_find_correct {n : Nat} {u : UF.UF} {ps : Edges} (h : Reachable n u ps) (x : Nat) (hx : x < n) :
+    ∃ u' r, UF.find u x = some (u', r) ∧ Reachable n u' ps ∧ RootOf u.parent x r ∧ EqvClosure ps x r ∧
+      u'.numSets = u.numSets ∧ ∀ j r', RootOf u'.parent j r' ↔ RootOf u.parent j r' := by
+  obtain ⟨hinv, hsz, hcls⟩ := reachable_refines h
+  obtain ⟨u', r, hf, _, _, _, hn, hr, hiff⟩ := find_spec hinv x (by omega)
+  have hrn : r < n := by have := hr.is_root.1; omega
+  refine ⟨u', r, hf, .find h hx hf, hr, ?_, hn, hiff⟩
+  rw [← conn_iff_eqvClosure, ← hcls x r hx hrn]
+  exact ⟨r, hr, .root hr.is_root.1 hr.is_root.2⟩
+
+open Tbx.UF in
+/-- "union-find reports two elements equal iff they were joined" -/
+theorem uf_same_iff_joined {n : Nat} {u : UF.UF} {ps : Edges} (h : Reachable n u ps) (x y : Nat) (hx : x < n) (hy : y < n) :
+    ∃ u1 rx u2 ry, UF.find u x = some (u1, rx) ∧ UF.find u1 y = some (u2, ry) ∧ (rx = ry ↔ EqvClosure ps x y) := by
+  obtain ⟨u1, rx, hf1, hr1, hrx, _, _, hiff1⟩ := uf_find_correct h x hx
+  obtain ⟨u2, ry, hf2, _, hry, _, _, _⟩ := uf_find_correct hr1 y hy
+  have hry' := (hiff1 _ _).mp hry
+  obtain ⟨_, _, hcls⟩ := reachable_refines h
+  refine ⟨u1, rx, u2, ry, hf1, hf2, ?_⟩
+  rw [← conn_iff_eqvClosure, ← hcls x y hx hy]
+  constructor
+  · rintro rfl; exact ⟨rx, hrx, hry'⟩
+  · rintro ⟨r, a, b⟩; exact (hrx.functional a).trans (b.functional hry')
+
+open Tbx.UF in
+/-- `union` terminates without panic and lowers `number_of_sets` by one iff the two elements were not yet
+    joined; by `uf_refines` the classes afterwards are the closure of the pairs including `(x, y)` -/
+theorem uf_union_correct {n : Nat} {u : UF.UF} {ps : Edges} (h : Reachable n u ps) (x y : Nat) (hx : x < n) (hy : y < n) :
+    ∃ u', UF.union u x y = some u' ∧ Reachable n u' (ps ++ [(x, y)]) ∧
+      (EqvClosure ps x y → u'.numSets = u.numSets) ∧ (¬ EqvClosure ps x y → u'.numSets + 1 = u.numSets) := by
+  obtain ⟨hinv, hsz, hcls⟩ := reachable_refines h
+  obtain ⟨u', hu, _, _, _, h1, h2⟩ := union_spec hinv x y (by omega) (by omega)
+  refine ⟨u', hu, .union h hx hy hu, ?_, ?_⟩
+  · intro hc; exact h1 ((hcls x y hx hy).mpr ((conn_iff_eqvClosure _ _ _).mpr hc))
+  · intro hc; exact h2 fun hh => hc ((conn_iff_eqvClosure _ _ _).mp ((hcls x y hx hy).mp hh))
+
+/-- non-vacuity: a history with two rank-1 trees joined (depth 2), then a find that halves a path -/
+example : ((UF.union (UF.new 4) 0 1).bind fun u => (UF.union u 2 3).bind fun u => (UF.union u 0 2).bind fun u =>
+    (UF.find u 3).map fun r => (r.2, r.1.numSets, r.1.parent.toList, u.parent.toList))
+    = some (0, 1, [0, 0, 0, 0], [0, 0, 0, 2]) := by decide +kernel
+
+/-! ## P1: Kruskal returns a spanning forest of the input and its cost -/
+
+/-- For every edge list whose total weight fits `u32`, `kruskal` terminates without panic and returns a
+    sub-multiset of the input that is cycle-free and connects exactly what the input connects, together
+    with the sum of its weights.  (Minimality is `kruskal_minimal_statement`.) -/
+theorem kruskal_forest_spanning (inp : List WEdge) (htot : cost inp < 4294967296) :
+    ∃ c mst, Kruskal.kruskal inp = some (c, mst) ∧ SpanningForest inp mst ∧ c = cost mst := by
+  obtain ⟨c, mst, hk, hsub, hac, hsp, hc⟩ := Kruskal.kruskal_spec inp htot
+  exact ⟨c, mst, hk, ⟨subMulti_of_acyclic hsub hac, hac, hsp⟩, hc⟩
+
+/-- non-vacuity: ties, a duplicate edge, a self-loop and two components -/
+example : Kruskal.kruskal [(0, 1, 2), (1, 2, 2), (2, 0, 1), (0, 1, 2), (3, 3, 1), (4, 5, 3)]
+    = some (6, [(2, 0, 1), (0, 1, 2), (4, 5, 3)]) := by decide +kernel
+
+/-- … and the returned forest has minimal total weight among ALL spanning forests of the input (proof by
+    exchange: some minimum spanning forest always contains the edges accepted so far; the heap pops a
+    lightest remaining edge). -/
+theorem kruskal_minimal (inp : List WEdge) (htot : cost inp < 4294967296) :
+    ∃ c mst, Kruskal.kruskal inp = some (c, mst) ∧ c = cost mst ∧ MinSpanningForest inp mst :=
+  Kruskal.kruskal_min inp htot
+
+/-- non-vacuity of the minimum: a triangle with weights 1, 2, 3 has spanning trees of cost 3, 4 and 5 -/
+example : (Kruskal.kruskal [(0, 1, 3), (1, 2, 1), (2, 0, 2)]).map (·.1) = some 3 := by decide +kernel
+
+/-! ## P1: every node gets a label in range -/
+
+/-- On every well-formed CSR graph with fewer than `usize::MAX` nodes, on a fresh or a used object, both
+    SCC routines terminate without reaching a panic branch (no index out of bounds, no `expect` on an empty
+    stack, no underflow of `component`; the fuel the models pass to their loops suffices) and give every
+    node a label in range: Tarjan a component number in `1..=n` (never `usize::MAX`: when a root's loop
+    breaks the Tarjan stack is empty again), PathBasedScc a number below `n`. -/
+theorem scc_labels_total (g : Graph) (hwf : WF g) (hn : numNodes g < maxU) :
+    (∀ s : Tarjan.State, ∃ s' a, Tarjan.run s g = some (s', a) ∧ a.size = numNodes g ∧
+      ∀ v, v < numNodes g → 1 ≤ gt a v ∧ gt a v ≤ numNodes g) ∧
+    (∀ s : Gabow.State, ∃ s' a, Gabow.run s g = some (s', a) ∧ a.size = numNodes g ∧
+      ∀ v, v < numNodes g → gt a v < numNodes g) :=
+  ⟨fun s => Tarjan.run_total s g hwf hn, fun s => Gabow.run_total s g hwf hn⟩
+
+/-- non-vacuity: a well-formed graph with a 2-cycle, a tail and a self-loop -/
+example : wfB (ofEdges [(0, 1), (1, 0), (1, 2), (2, 2)]) = true ∧
+    (Tarjan.run Tarjan.State.fresh (ofEdges [(0, 1), (1, 0), (1, 2), (2, 2)])).map (fun r => r.2.toList) = some [2, 2, 1] ∧
+    (Gabow.run Gabow.State.fresh (ofEdges [(0, 1), (1, 0), (1, 2), (2, 2)])).map (fun r => r.2.toList) = some [1, 1, 2] := by
+  decide +kernel
+
+/-! ## the cycle check is exact -/
+
+/-- On every well-formed CSR graph `cycle_check` terminates without reaching a panic branch (the fuel the
+    model passes suffices) and answers `true` iff some edge `u → v` is closed by a path `v ⇝ u`.
+    The proof covers the non-textbook stack discipline: nodes pushed twice, and the second greying of an
+    already black node when its lower copy reaches the top of the stack. -/
+theorem cycle_exact (g : Graph) (hwf : WF g) :
+    ∃ b, CycleCheck.cycleCheck g = some b ∧ (b = true ↔ HasCycle (edgesOf g)) :=
+  CycleCheck.cycleCheck_correct g hwf
+
+/-- non-vacuity: a well-formed DAG in which node 1 is pushed twice (and greyed twice), and a graph with a cycle -/
+example : wfB (ofEdges [(0, 1), (0, 2), (2, 1), (1, 3)]) = true ∧
+    CycleCheck.cycleCheck (ofEdges [(0, 1), (0, 2), (2, 1), (1, 3)]) = some false := by decide +kernel
+example : wfB (ofEdges [(0, 1), (1, 2), (2, 1)]) = true ∧
+    CycleCheck.cycleCheck (ofEdges [(0, 1), (1, 2), (2, 1)]) = some true := by decide +kernel
+
+/-! ## the headline clause: same label iff mutually reachable -/
+
+/-- On every well-formed CSR graph with fewer than `usize::MAX` nodes, on a fresh or a used object,
+    `Tarjan::run` returns, and two nodes carry the same component number iff each is reachable from the
+    other.  (Invariants: the lowlink of a stack node is the index of a stack node it reaches; explored
+    edges from a stack node lead to assigned nodes or to stack nodes of index ≥ its lowlink; the lowlink of
+    every node of the caller chain is below the lowlinks of the stack nodes between it and the next chain
+    node; assigned nodes are closed under edges.) -/
+theorem tarjan_exact (s : Tarjan.State) (g : Graph) (hwf : WF g) (hn : numNodes g < maxU) :
     ∃ s' a, Tarjan.run s g = some (s', a) ∧ a.size = numNodes g ∧
-      ∀ u v, u < numNodes g → v < numNodes g → (gt a u = gt a v ↔ SameSCC (edgesOf g) u v)
+      ∀ u v, u < numNodes g → v < numNodes g → (gt a u = gt a v ↔ SameSCC (edgesOf g) u v) :=
+  Tarjan.run_exact s g hwf hn
 
-def gabow_exact_statement : Prop :=
-  ∀ (s : Gabow.State) (g : Graph), WF g → numNodes g < maxU →
+/-- The same for `PathBasedScc::run`.  (Invariants: the bounds stack cuts the node stack into strongly
+    connected blocks; explored edges from a stack node lead to assigned nodes or to a block that is not
+    below its own; when `scc[v]` is on top of the bounds the top block together with the assigned nodes is
+    closed under edges.) -/
+theorem gabow_exact (s : Gabow.State) (g : Graph) (hwf : WF g) (hn : numNodes g < maxU) :
     ∃ s' a, Gabow.run s g = some (s', a) ∧ a.size = numNodes g ∧
-      ∀ u v, u < numNodes g → v < numNodes g → (gt a u = gt a v ↔ SameSCC (edgesOf g) u v)
+      ∀ u v, u < numNodes g → v < numNodes g → (gt a u = gt a v ↔ SameSCC (edgesOf g) u v) :=
+  Gabow.run_exact s g hwf hn
 
-def cycle_exact_statement : Prop :=
-  ∀ g : Graph, WF g → ∃ b, CycleCheck.cycleCheck g = some b ∧ (b = true ↔ HasCycle (edgesOf g))
+/-- non-vacuity: a well-formed graph with the components {0,1,2}, {3,4}, {5}, cross edges and a self-loop;
+    both routines separate exactly these -/
+example : wfB (ofEdges [(0, 1), (1, 2), (2, 0), (2, 3), (3, 4), (4, 3), (4, 5), (0, 5), (5, 5)]) = true ∧
+    (Tarjan.run Tarjan.State.fresh (ofEdges [(0, 1), (1, 2), (2, 0), (2, 3), (3, 4), (4, 3), (4, 5), (0, 5), (5, 5)])).map
+      (fun r => r.2.toList) = some [3, 3, 3, 2, 2, 1] ∧
+    (Gabow.run Gabow.State.fresh (ofEdges [(0, 1), (1, 2), (2, 0), (2, 3), (3, 4), (4, 3), (4, 5), (0, 5), (5, 5)])).map
+      (fun r => r.2.toList) = some [3, 3, 3, 4, 4, 5] := by
+  decide +kernel
 
-def kruskal_minimal_statement : Prop :=
-  ∀ inp : List WEdge, cost inp < 4294967296 →
-    ∃ c mst, Kruskal.kruskal inp = some (c, mst) ∧ c = cost mst ∧ MinSpanningForest inp mst
+/-! ## from CSR graphs to arbitrary edge lists -/
+
+/-- The model of `StaticGraph::new` (sort, offsets, sentinel) builds a well-formed graph with exactly the
+    input's edges, so the three digraph clauses hold for EVERY edge list (nodes `0..=max id`, self-loops and
+    parallel edges allowed), with reachability taken over the input edge list itself. -/
+theorem digraph_analyses_exact (es : List (Nat × Nat)) (hn : numNodes (ofEdges es) < maxU) :
+    (∀ s : Tarjan.State, ∃ s' a, Tarjan.run s (ofEdges es) = some (s', a) ∧ a.size = numNodes (ofEdges es) ∧
+      ∀ u v, u < numNodes (ofEdges es) → v < numNodes (ofEdges es) → (gt a u = gt a v ↔ SameSCC es u v)) ∧
+    (∀ s : Gabow.State, ∃ s' a, Gabow.run s (ofEdges es) = some (s', a) ∧ a.size = numNodes (ofEdges es) ∧
+      ∀ u v, u < numNodes (ofEdges es) → v < numNodes (ofEdges es) → (gt a u = gt a v ↔ SameSCC es u v)) ∧
+    (∃ b, CycleCheck.cycleCheck (ofEdges es) = some b ∧ (b = true ↔ HasCycle es)) := by
+  have hwf := ofEdges_wf es
+  refine ⟨fun s => ?_, fun s => ?_, ?_⟩
+  · obtain ⟨s', a, h1, h2, h3⟩ := tarjan_exact s (ofEdges es) hwf hn
+    exact ⟨s', a, h1, h2, fun u v hu hv => (h3 u v hu hv).trans (sameSCC_ofEdges es u v)⟩
+  · obtain ⟨s', a, h1, h2, h3⟩ := gabow_exact s (ofEdges es) hwf hn
+    exact ⟨s', a, h1, h2, fun u v hu hv => (h3 u v hu hv).trans (sameSCC_ofEdges es u v)⟩
+  · obtain ⟨b, h1, h2⟩ := cycle_exact (ofEdges es) hwf
+    exact ⟨b, h1, h2.trans (hasCycle_ofEdges es)⟩
+
+example : numNodes (ofEdges [(0, 1), (1, 0), (1, 2), (2, 2), (1, 0)]) = 3 := by decide +kernel
 
 end Tbx.Props.C16
